@@ -353,8 +353,8 @@ func init() {
 			}
 			return 96
 		},
-		ChunkSize: 4,
-		Rule:      "each case draws one well-formed broker stream (PUBLISH at three levels with topic 1-20 B and payload 0 … read-buffer-size±2 … 3 buffers, retransmitted QoS 2 duplicates, PUBREL known/unknown, unsolicited PINGRESP/SUBACK/UNSUBACK, PUBACK/PUBREC/PUBCOMP for publishes really made) at a small read buffer (VerifSetReadBufSize 64-512; every 8th case at the real 128 KiB with payloads up to 3 buffers) and feeds it to a fresh client once per fragmentation: EVERY single cut position, EVERY single cut followed by a deadline expiry (fired by the connection only when a byte arrived since the deadline was armed), 1-byte reads, the whole stream at once (CONNACK coalesced), and PRNG multi-cut plans; big messages are read or skipped by plan. Oracle: returned (topic, payload, BigMessage.Topic/Size/ReadAll) equal the reference list and the acknowledgement bytes written equal the reference sequence, so all fragmentations agree. Non-trivial: a packet delivered in >= 2 reads; distinct by (buffer size, cut position relative to packet fields, stall).",
+		ChunkSize:   4,
+		Rule:        "each case draws one well-formed broker stream (PUBLISH at three levels with topic 1-20 B and payload 0 … read-buffer-size±2 … 3 buffers, retransmitted QoS 2 duplicates, PUBREL known/unknown, unsolicited PINGRESP/SUBACK/UNSUBACK, PUBACK/PUBREC/PUBCOMP for publishes really made) at a small read buffer (VerifSetReadBufSize 64-512; every 8th case at the real 128 KiB with payloads up to 3 buffers) and feeds it to a fresh client once per fragmentation: EVERY single cut position, EVERY single cut followed by a deadline expiry (fired by the connection only when a byte arrived since the deadline was armed), 1-byte reads, the whole stream at once (CONNACK coalesced), and PRNG multi-cut plans; big messages are read or skipped by plan. Oracle: returned (topic, payload, BigMessage.Topic/Size/ReadAll) equal the reference list and the acknowledgement bytes written equal the reference sequence, so all fragmentations agree. Non-trivial: a packet delivered in >= 2 reads; distinct by (buffer size, cut position relative to packet fields, stall).",
 		Assumptions: []string{"deadline expiries are reported by a Read call of their own (n = 0), as net.Conn implementations do", "topics stay below buffer size - 8 as the package documents for BigMessage"},
 		Run: func(c *run.Ctx) {
 			real128k := c.Case%8 == 7
